@@ -187,7 +187,7 @@ func runC14(c *Ctx) {
 					wrongs["one-byte"] = []byte{'0'}
 				}
 				for wn, wp := range wrongs {
-					if hmacKeyEquivalent(wp, pw.p) {
+					if wp != nil && hmacKeyEquivalent(wp, pw.p) {
 						continue // same PBKDF2-HMAC password by definition (HMAC zero-pads short keys)
 					}
 					var k2 *sm2.PrivateKey
